@@ -402,6 +402,18 @@ func (env *ExprEnv) callExpr(e *ast.CallExpr) Val {
 	case "lasttimerdur": // duration given to the most recent time.NewTimer call
 		t.regArray("$g:lasttimerdur", "Int")
 		return intVal(t.lookup(env.st, "$g:lasttimerdur"))
+	case "maphas": // maphas(m, k): key k is present in (read-only) map m
+		m, k := arg(0), arg(1)
+		has := t.declareFun("$maphas", []string{"Int", "Int"}, "Bool")
+		return boolVal(sApp(has, m.S, k.S))
+	case "mapgetlen": // length of the slice stored under k
+		m, k := arg(0), arg(1)
+		f := t.declareFun("$mapget1I", []string{"Int", "Int"}, "Int")
+		return intVal(sApp(f, m.S, k.S))
+	case "mapgetptr":
+		m, k := arg(0), arg(1)
+		f := t.declareFun("$mapget0I", []string{"Int", "Int"}, "Int")
+		return Val{K: KRef, S: sApp(f, m.S, k.S)}
 	case "afterdur": // duration given to the last time.AfterFunc call
 		t.regArray("$g:afterdur", "Int")
 		return intVal(t.lookup(env.st, "$g:afterdur"))
